@@ -67,11 +67,20 @@ Print Assumptions c11_terminal_all_joined.
 (* stop() and the destructor never deadlock, whatever the timing and whoever calls stop() (a client, the
    destructor, a job on one of the pool's own workers, several of them at once): every reachable state in which
    some thread has not finished has an enabled step — unless a client thread sits in worker() of an idle pool
-   that nobody stops, which is a deadlock of the client program *)
+   that nobody stops, or a thread waits for the outcome of a submission (a job / the client program made itself depend on
+   it; e.g. a job waiting for a task queued behind it on a one-worker pool): deadlocks of the client program *)
 Theorem c11_stop_no_deadlock : forall ops s,
-  reachable ops s -> ~ terminal s -> (exists i, enabled s i = true) \/ user_stuck s.
+  reachable ops s -> ~ terminal s -> (exists i, enabled s i = true) \/ user_stuck s \/ waits_for_submission s.
 Proof. exact stop_no_deadlock. Qed.
 Print Assumptions c11_stop_no_deadlock.
+
+(* no lost wake-up: whenever work is queued in a running pool, every sleeping worker has a wake-up pending (so a
+   submission is never left in the queue next to an idle worker, and a job that waits for another submission's
+   outcome is not stranded by the pool) *)
+Theorem c11_no_lost_wakeup : forall ops s i,
+  reachable ops s -> exit_ s = false -> queue s <> [] -> T s i = Some WSleep -> enabled s i = true.
+Proof. exact no_lost_wakeup. Qed.
+Print Assumptions c11_no_lost_wakeup.
 
 (* every run is finite: from a reachable state no schedule can make more than mu s steps (mu: remaining client
    programs + job bodies + queued closures + pending wake-ups + join lists) *)
@@ -82,12 +91,13 @@ Print Assumptions c11_runs_are_finite.
 
 (* hence the run of every case file, under every schedule, ends with every thread finished: the destructor has
    joined all workers (or the client program deadlocked itself by leaving a thread in worker() of an idle pool) *)
-Theorem c11_run_ends : forall ops, terminal (final_state ops) \/ user_stuck (final_state ops).
+Theorem c11_run_ends : forall ops,
+  terminal (final_state ops) \/ user_stuck (final_state ops) \/ waits_for_submission (final_state ops).
 Proof. exact run_ends. Qed.
 Print Assumptions c11_run_ends.
 
 (* the model satisfies, at the end of every run, what the oracle demands of an implementation trace *)
-Theorem c11_model_final_ok : forall ops, ~ user_stuck (final_state ops) ->
+Theorem c11_model_final_ok : forall ops, ~ user_stuck (final_state ops) -> ~ waits_for_submission (final_state ops) ->
   let s := final_state ops in
   destroyed s = true /\ uad s = false /\ stuck_list (thrs s) 0 = [] /\
   forall c x, nth_error (clos s) c = Some x ->
